@@ -276,6 +276,12 @@ class Runnable(UsesState, HasLabel, HasRun, ABC):
         self.running = False
         self.failed = True
 
+    def _run_succeeded(self, /, *args, **kwargs):
+        """
+        What to do in :meth:`_finish_run` once the result of the run has been processed
+        without an exception; receives the `finish_run_kwargs` of that very run.
+        """
+
     def _run_finally(self, /, *args, **kwargs):
         """
         What to do after :meth:`_finish_run` (whether an exception is encountered or
@@ -298,7 +304,9 @@ class Runnable(UsesState, HasLabel, HasRun, ABC):
         try:
             if isinstance(run_output, Future):
                 run_output = run_output.result()
-            return self.process_run_result(run_output)
+            result = self.process_run_result(run_output)
+            self._run_succeeded(**kwargs)
+            return result
         except Exception as e:
             self._run_exception(**run_exception_kwargs)
             if raise_run_exceptions:
